@@ -21,7 +21,7 @@ from vf import fits as FT
 from vf.gen import rng_for, synth_daily
 
 ID = "C13"
-TECHNIQUE = 'runtime monitoring: hooks on the real candidate generation/selection (exact-cover and data-availability invariants, argmin of the logged criterion) + routing oracle over every date of two years for every split string under interleaved models of different maps'
+TECHNIQUE = 'runtime monitoring: hooks on the real candidate generation/selection (exact-cover and data-availability invariants, argmin of the logged criterion; the real selection loop driven with near-tie score tables) + routing oracle over every date of two years for every split string under interleaved models of different maps'
 LEVEL = "exploration"
 CASE_TIMEOUT = 2400
 RULE = ("candidates: all 16 allow-flag combinations x gaussian reduction on/off x season/weekday maps (default, shifted seasons, one-season map, "
@@ -32,7 +32,7 @@ ASSUMPTIONS = ["a split component '<fw|wd|we>-<seasons>' owns the cells (season,
                "a single-season component needs that season's allow flag; any wd/we component needs allow_separate_weekday_weekend",
                "ties in the selection criterion may resolve to any minimal candidate"]
 REQUIRED_REACH = {"selection.model_object_reused": 3, "routing.models_of_different_maps_alive_together": 40, "candidates.sets": 100, "candidates.checked": 1000, "candidates.nontrivial_sets": 30, "routing.models": 60, "routing.dates": 40000,
-                  "selection.fits": 3, "selection.candidates_logged": 10, "hook.trim_combinations": 50}
+                  "selection.fits": 3, "selection.loop_driven_with_score_table": 80, "selection.candidates_logged": 10, "hook.trim_combinations": 50}
 SEASONS = ["su", "sh", "wi"]
 FULL = {"su": "summer", "sh": "shoulder", "wi": "winter"}
 
@@ -273,6 +273,43 @@ def selection_case(spec, keys):
         if logged[best] > lo + 1e-12 * max(1.0, abs(lo)):
             arg = min(logged, key=logged.get)
             add("chosen-split-not-the-argmin", "chosen %r has criterion %.9g, candidate %r has %.9g" % (best, logged[best], arg, logged[arg]))
+    # the REAL selection loop driven with hostile score tables (a stub in place of the scoring function on this one object): clear winners,
+    # near ties (a later candidate lower by 1e-3 .. 1 ulp relative), slowly descending / ascending runs, exact ties, scores around 0
+    if len(cands) >= 2:
+        sr = np.random.default_rng([spec["seed"], 1313, spec["n"]])
+        orig = m.__dict__.get("_combination_selection_criteria")
+        for trial in range(40):
+            base = float(sr.choice([-3.7, -0.5, 0.0, 2.0, 150.0]))
+            kind = trial % 5
+            if kind == 0:
+                vals = base + sr.normal(0, 1, len(cands))
+            elif kind == 1:
+                vals = np.full(len(cands), base) + sr.normal(0, 1e-9, len(cands))
+                j = int(sr.integers(1, len(cands)))
+                vals[j] = vals[:j].min() - abs(vals[:j].min() if vals[:j].min() != 0 else 1.0) * float(sr.choice([1e-3, 3e-4, 1e-6, 1e-9, 1e-12]))     # later and lower by a hair
+            elif kind == 2:
+                step = float(sr.choice([1e-3, 1e-5, 1e-8])) * (abs(base) if base else 1.0)
+                vals = base - step * np.arange(len(cands)) * (1 if trial % 2 else -1)
+            elif kind == 3:
+                vals = np.full(len(cands), base)
+                vals[sr.choice(len(cands), size=max(1, len(cands) // 2), replace=False)] = base - 1.0           # several exact minima
+            else:
+                vals = np.array([np.nextafter(base, -np.inf) if i == len(cands) - 1 else base for i in range(len(cands))])         # one ulp lower, last
+            table = dict(zip(cands, [float(v) for v in vals]))
+            m._combination_selection_criteria = lambda combo, _t=table: _t[combo]
+            try:
+                got = m._best_combination()
+            finally:
+                if orig is None:
+                    m.__dict__.pop("_combination_selection_criteria", None)
+                else:
+                    m._combination_selection_criteria = orig
+            I.reach("selection.loop_driven_with_score_table")
+            lo_ = min(table.values())
+            if got not in table or table[got] != lo_:
+                add("chosen-split-not-the-argmin:score-table", "score table kind %d: chose %r (%.17g), the lowest is %r (%.17g)" % (
+                    kind, got, table.get(got, float("nan")), min(table, key=table.get), lo_), table_kind=kind)
+                break
     if cover_problem(best):
         add("chosen-split-not-an-exact-cover", "chosen %r: %s" % (best, cover_problem(best)))
     if set(m.params.submodels.keys()) != set(best.split("__")):
